@@ -164,6 +164,9 @@ impl PropImpl for C01 {
     fn assumptions(&self) -> Vec<String> {
         vec!["inputs are valid UTF-8 (&str API); Read-based entry points are fed the same bytes".into()]
     }
+    fn expected_labels(&self) -> Vec<&'static str> {
+        vec!["linestart/KEYCH", "linestart/MULTIBYTE", "linestart/CTRL", "linestart/DASH", "linestart/COLON", "linestart/HASH", "linestart/SP", "linestart/TAB", "linestart/LF", "linestart/CR", "afterindent/HASH", "afterindent/COLON", "afterindent/MULTIBYTE", "inkey/COLON", "inkey/MULTIBYTE", "inkey/CR", "invalue/CR", "invalue/MULTIBYTE", "incomment/CR", "tolerant-reader-reports-errors", "error-free", "origin:mutated-doc"]
+    }
     fn budget(&self, tier: Tier) -> Budget {
         Budget { cases_per_lane: if tier == Tier::Quick { 20000 } else { 100_000 }, tape_max: 600, cpu_s: 10 }
     }
